@@ -223,6 +223,8 @@ RECURSION_SCOPE = {
     "pysmt.rewritings.AIGer": ("walk", "convert"),
     "pysmt.smtlib.printers.SmtDagPrinter": ("walk", "printer"),
     "pysmt.walkers.identitydag.IdentityDagWalker": ("walk",),
+    # str(formula) - the text of every type error raised at construction time - is this printer with a depth threshold
+    "pysmt.printers.HRPrinter": ("walk", "printer"),
 }
 QUANTIFIER_CALLBACKS = ("walk_forall", "walk_exists", "_walk_quantifier", "walk_quantifier")
 NODE_ACCESSORS = ("bv_width", "get_type", "constant_type", "constant_value", "bv_signed_value", "bv_unsigned_value", "symbol_type")
@@ -325,6 +327,75 @@ def variants(world, tier="quick", only=None):
                     continue
                 out.append(WalkerVariant(world, meth, 2, pat, one))
     out.append(StaticRecursionVariant(world))
+    if only:
+        out = [v for v in out if any(o in v.name for o in only)]
+    return out
+
+
+# ---------------------------------------------------------------------------
+# every _get_key of a memoising walker: the key determines the node (and the extra arguments the result depends on)
+# ---------------------------------------------------------------------------
+def get_key_definitions(repo):
+    """[(class, [extra parameter names])] for every class of the repository that defines _get_key"""
+    out = []
+    for cls in sorted(repo.probe["mro"]):
+        if ".test" in cls:
+            continue
+        mi, ci = repo.find_class(cls)
+        if not ci or "_get_key" not in ci["methods"]:
+            continue
+        a = ci["methods"]["_get_key"].node.args
+        extra = [p.arg for p in a.args[2:]]
+        out.append((cls, extra))
+    return out
+
+
+class GetKeyVariant(Variant):
+    """_get_key of one walker class on two arbitrary nodes f, g - possibly of different environments, so possibly with the same
+    node id - and arbitrary values of its extra parameters: equal keys only for the same node and the same extras (a table
+    entry can only ever be found again by the query that made it)."""
+    prop_ids = ("C14", "C04", "C03")
+    replay_kind = "walker-keys"
+
+    def __init__(self, world, cls, extra):
+        self.world, self.cls, self.extra = world, cls, extra
+        self.qualname = cls + "._get_key"
+        self.name = "key:%s" % cls.rsplit(".", 1)[1]
+
+    def setup(self, ex):
+        W = self.world
+        env = core.make_env(ex, W)
+        self.f, self.g = z3.Const("formula", Node), z3.Const("other_formula", Node)
+        for x in (self.f, self.g):
+            W.touch(ex, x)
+        self.w = Obj(self.cls, {"env": env, "memoization": DictVal(), "stack": []}, tag="walker")
+        mk = lambda nm, i: z3.Const("%s_%d" % (nm, i), I if nm != "pol" else B)
+        self.e1 = {nm: mk(nm, 1) for nm in self.extra}
+        self.e2 = {nm: mk(nm, 2) for nm in self.extra}
+        fi = W.repo.method(self.cls, "_get_key")
+        self.fn = W.wrap_func(fi, fi.module, bound=self.w)
+        return self.fn, [self.f], dict(self.e1)
+
+    def check(self, ex, outcome):
+        kind, r = outcome
+        if kind == "raise":
+            return [("no-exception", z3.BoolVal(False))]
+        W = self.world
+        r2 = ex.call(self.fn, [self.g], dict(self.e2))
+        same = BI._eq(W, ex, r, r2)
+        same = same if is_z3(same) else z3.BoolVal(bool(same))
+        want = z3.And([self.f == self.g] + [self.e1[nm] == self.e2[nm] for nm in self.extra])
+        return [("equal-keys-only-for-the-same-query", z3.Implies(same, want)),
+                ("same-query-same-key", z3.Implies(want, same))]
+
+
+_base_variants14 = variants
+
+
+def variants(world, tier="quick", only=None):
+    out = _base_variants14(world, tier, None)
+    for cls, extra in get_key_definitions(world.repo):
+        out.append(GetKeyVariant(world, cls, extra))
     if only:
         out = [v for v in out if any(o in v.name for o in only)]
     return out
